@@ -26,7 +26,7 @@ var zzC03 = []zzScenario{
 	},
 	{ // 2: parameters, several methods per pattern, shared prefixes
 		setup: []zzOp{zzH("/u/{id}", "GET", "POST"), zzH("/u/{id}/p", "GET"), zzH("/u/me", "GET")},
-		alpha: []zzOp{zzRm("/u/{id}", "GET"), zzRm("/u/{id}"), zzRm("/u/{id}/p"), zzRm("/u/me"), zzRCl("/u/{id}"), zzPCl("/u/"), zzH("/u/{id}", "DELETE"), zzRm("/u/{id}", "POST", "GET"), zzRm("/u/zz")},
+		alpha: []zzOp{zzRm("/u/{id}", "GET"), zzRm("/u/{id}"), zzRm("/u/{id}/p"), zzRm("/u/me"), zzRCl("/u/{id}"), zzPCl("/u/"), zzH("/u/{id}", "DELETE"), zzRm("/u/{id}", "POST", "GET"), zzRm("/u/zz"), zzPCl("/u/{id}")},
 	},
 	{ // 3: interceptor / regexp / named competing at one position
 		setup: []zzOp{zzH("/i/{n:digit}", "GET"), zzH("/i/{r:[a-c]+}", "GET"), zzH("/i/{s}", "GET"), zzH("/i/{n:digit}/x", "POST")},
@@ -35,6 +35,10 @@ var zzC03 = []zzScenario{
 	{ // 4: an indexed parent (>= 5 children) with a handler-less branch whose leaves go away one by one (two-level pruning)
 		setup: []zzOp{zzH("/m", "GET", "PUT"), zzH("/m/1", "GET"), zzH("/m/2", "GET"), zzH("/m/3", "GET"), zzH("/m/4", "GET"), zzH("/m/5", "GET"), zzH("/m/6a", "GET"), zzH("/m/6b", "POST"), zzH("/m/{id}", "GET")},
 		alpha: []zzOp{zzRm("/m/6a"), zzRm("/m/6b"), zzRm("/m/1"), zzRm("/m/{id}"), zzPCl("/m/6"), zzPCl("/m/{id"), zzH("/m/6c", "GET"), zzRCl("/m/5"), zzRm("/m"), zzRCl("/m")},
+	},
+	{ // 5: a live route whose pattern is a proper prefix of a cleaned prefix and whose only descendants sit under it
+		setup: []zzOp{zzH("/k", "GET"), zzH("/k/v/u", "GET"), zzH("/k/v/i/{id}", "POST"), zzH("/o", "GET")},
+		alpha: []zzOp{zzPCl("/k/v"), zzPCl("/k/v/"), zzPCl("/k/"), zzRm("/k"), zzRm("/k/v/u"), zzPCl("/k/v/i"), zzRm("/k/v/i/{id}"), zzH("/k/v", "PUT")},
 	},
 }
 
